@@ -545,7 +545,7 @@ def r_samples_voxel(rule, root=None):
             rule.ok("normal evaluation seeds %s with its own unit axis at the surface voxel" % arr)
         else:
             rule.bad("samples|voxel|seed|%s" % arr, "the gradient seed for %s must be %s" % (arr, f), A.where(fn))
-    if "self.out[*o].normal=[g.dx,g.dy,g.dz];" in t:
+    if t.fmatch("self.out[*$O].normal=[$G.dx,$G.dy,$G.dz];") is not None or t.fmatch("self.out[$O].normal=[$G.dx,$G.dy,$G.dz];") is not None:
         rule.ok("normals are read as (dx, dy, dz)")
     else:
         rule.bad("samples|voxel|normal", "the stored normal must be [g.dx, g.dy, g.dz]", A.where(fn))
@@ -565,7 +565,15 @@ def r_samples_voxel(rule, root=None):
         else:
             rule.bad("box|voxel|%s" % ax, "3D tile box %s must be [corner.%s, corner.%s + tile_size]" % (ax, ax, ax), A.where(rf))
     # early exit threshold
-    if "if(0..tile_size).all(|y|{leti=self.tile_row_offset(tile,y);(0..tile_size).all(|x|(self.out[(i+x)].depth>=fill_z))}){returnfalse;}" in t:
+    # every covered pixel already at or above the tile's top: `all(all(depth >= top))`, or its De Morgan twin
+    # `!any(any(depth < top))` (the comparison is on unsigned integers)
+    folded = txt(A.inline_lets_deep(rf["body"]))
+    early = (
+        t.fmatch("if(0..tile_size).all(|$Y|{let$I=self.tile_row_offset(tile,$Y);(0..tile_size).all(|$X|(self.out[($I+$X)].depth>=fill_z))}){returnfalse;}") is not None
+        or t.fmatch("let$U=(0..tile_size).any(|$Y|{let$I=self.tile_row_offset(tile,$Y);(0..tile_size).any(|$X|(self.out[($I+$X)].depth<fill_z))});if!$U{returnfalse;}") is not None
+        or t.fmatch("if!(0..tile_size).any(|$Y|{let$I=self.tile_row_offset(tile,$Y);(0..tile_size).any(|$X|(self.out[($I+$X)].depth<fill_z))}){returnfalse;}") is not None
+    )
+    if early:
         rule.ok("a tile is skipped only when every pixel under it is already at or above the tile's top")
     else:
         rule.bad("voxel|early-exit", "the early exit must require every covered pixel's depth >= corner.z + tile_size + 1", A.where(rf))
@@ -577,14 +585,15 @@ def r_zorder_root(rule, root=None):
     if len(loops) != 1:
         rule.lost("the root z loop in voxel render_tile")
         return
-    it = txt(loops[0]["iter"])
-    if it == "(0..self.image_size[2].div_ceil((root_tile_sizeasu32))).rev()":
+    it = A.resolve_locals(fn["body"], loops[0]["iter"])
+    if it in ("(0..self.image_size[2].div_ceil((self.tile_sizes[0]asu32))).rev()", "(0..self.image_size[2].div_ceil((root_tile_sizeasu32))).rev()"):
         rule.ok("root tiles along z are visited from the top down and cover ceil(depth / root)", file=VOX, line=loops[0]["ln"])
     else:
         rule.bad("voxel|root-z", "root tiles along z are iterated as `%s`; they must cover 0..ceil(depth / root) from the top down, because a full tile ends the column" % it, A.where(fn, loops[0]))
     t = txt(loops[0]["body"])
     k = A.binding_name(loops[0]["pat"])
-    if "Point3::new(tile.corner.x,tile.corner.y,((%sasusize)*root_tile_size))" % k in t and "if!self.render_tile_recurse(shape,0,tile){break;}" in t:
+    m = t.fmatch("let$T=Tile::new(Point3::new(tile.corner.x,tile.corner.y,((%sasusize)*root_tile_size)));" % k)
+    if m is not None and t.fmatch("if!self.render_tile_recurse(shape,0,$T){break;}", bind=m) is not None:
         rule.ok("each root tile keeps the 2D corner and stacks along z; a full tile stops the descent")
     else:
         rule.bad("voxel|root-corner", "root tile corners must be (corner.x, corner.y, k * root) and a `false` result must stop the descent", A.where(fn, loops[0]))
